@@ -57,6 +57,9 @@ type World struct {
 	AltSeed  uint64            `json:"alt_seed,omitempty"`
 	AltSites []string          `json:"alt_sites,omitempty"`
 	AltAll   bool              `json:"alt_all,omitempty"`
+	// RunFrom: the command is started from this (new, empty) sub-directory of the world's directory,
+	// with every relative pattern and -o respelled relative to it ("../..."): same files, other cwd
+	RunFrom string `json:"run_from,omitempty"`
 	// AbsInputs: the input files are created under a stable absolute root (outside cwd) and every
 	// relative -i pattern is given to the command as an absolute path below that root
 	AbsInputs bool `json:"abs_inputs,omitempty"`
@@ -129,6 +132,7 @@ type Result struct {
 }
 
 var (
+	isoCounter int
 	baseDir    string
 	runCounter int
 	origEnv    []string
@@ -290,11 +294,17 @@ func execIsolated(w *World) *Result {
 		panic(err)
 	}
 	in, _ := json.Marshal(w)
+	initBase()
+	isoCounter++
+	resFile := filepath.Join(baseDir, fmt.Sprintf("iso-%d.json", isoCounter))
+	defer os.Remove(resFile)
 	cmd := exec.Command(exe, "exec1")
-	cmd.Env = append(os.Environ(), "VERIFSIM_ABSROOT="+absRoot())
+	// the result travels through a file: whatever the build under test (or a goroutine it left
+	// behind) prints to the real descriptors cannot corrupt it
+	cmd.Env = append(os.Environ(), "VERIFSIM_ABSROOT="+absRoot(), "VERIFSIM_RESULT="+resFile)
 	cmd.Stdin = bytes.NewReader(in)
 	var out, errb bytes.Buffer
-	cmd.Stdout, cmd.Stderr = &out, &errb
+	cmd.Stdout, cmd.Stderr = &errb, &errb
 	if err := cmd.Run(); err != nil {
 		// the process running the build died (a Go runtime "fatal error" such as concurrent map
 		// writes, a nil-pointer fault outside recover's reach, os.Exit from an unexpected place)
@@ -310,8 +320,11 @@ func execIsolated(w *World) *Result {
 		return r
 	}
 	var wr wireResult
+	if b, err := os.ReadFile(resFile); err == nil {
+		out.Write(b)
+	}
 	if err := json.Unmarshal(out.Bytes(), &wr); err != nil {
-		panic(fmt.Sprintf("isolated execution: bad result: %v\n%s", err, out.String()))
+		panic(fmt.Sprintf("isolated execution: bad result: %v\n%s", err, errb.String()))
 	}
 	wr.R.Out.Data = wr.Data
 	CaseDigest = shaStr(CaseDigest + digest(wr.R) + fmt.Sprint(len(wr.R.Ops), len(wr.R.Fired)))
@@ -327,6 +340,13 @@ func Exec1(t Target) {
 	}
 	r := Exec(t, &w)
 	b, _ := json.Marshal(wireResult{R: r, Data: r.Out.Data})
+	if f := os.Getenv("VERIFSIM_RESULT"); f != "" {
+		if err := os.WriteFile(f, b, 0644); err != nil {
+			fmt.Fprintln(os.Stderr, err)
+			os.Exit(2)
+		}
+		return
+	}
 	os.Stdout.Write(b)
 }
 
@@ -427,14 +447,27 @@ func Exec(t Target, w *World) *Result {
 
 	res := &Result{OutBefore: observe(w.Out)}
 	args := []string{"gontainer", "build"}
+	up := ""
+	if w.RunFrom != "" {
+		must(os.MkdirAll(filepath.Join(cwd, w.RunFrom), 0755))
+		must(os.Chdir(filepath.Join(cwd, w.RunFrom)))
+		up = strings.Repeat("../", strings.Count(filepath.Clean(w.RunFrom), "/")+1)
+		beforeSet[filepath.Clean(w.RunFrom)+"/"] = true
+	}
 	for _, p := range w.Patterns {
 		if inRoot != "" && !filepath.IsAbs(p) {
 			// keep the spelling of the pattern (./, //) after the root
 			p = inRoot + "/" + p
+		} else if !filepath.IsAbs(p) {
+			p = up + p
 		}
 		args = append(args, "-i", p)
 	}
-	args = append(args, "-o", w.Out)
+	outArg := w.Out
+	if !filepath.IsAbs(outArg) {
+		outArg = up + outArg
+	}
+	args = append(args, "-o", outArg)
 	args = append(args, w.Flags...)
 	oldArgs := os.Args
 	os.Args = args
@@ -481,6 +514,7 @@ func Exec(t Target, w *World) *Result {
 	os.Args = oldArgs
 	restoreEnv()
 
+	_ = os.Chdir(cwd)
 	res.Stdout = ctl.Stdout.String()
 	res.Stderr = ctl.Stderr.String()
 	res.Ops = ctl.Ops
